@@ -7,6 +7,20 @@ use yash_env::semantics::exit_or_raise;
 
 pub fn real_shell_main(mut args: Vec<String>) -> ! {
     args.insert(0, "yash".to_string());
+    // Whoever launched the check may have left HUP / INT / QUIT ignored (nohup, a background job of a
+    // non-interactive shell); a non-interactive shell cannot trap a signal that was ignored on
+    // entry, so the scripts with traps and self-signals would behave differently from the simulated
+    // run for a reason that has nothing to do with the code under test. Start from defaults.
+    unsafe {
+        for s in 1..32 {
+            if s != libc::SIGKILL && s != libc::SIGSTOP {
+                libc::signal(s, libc::SIG_DFL);
+            }
+        }
+        let mut set: libc::sigset_t = std::mem::zeroed();
+        libc::sigemptyset(&mut set);
+        libc::sigprocmask(libc::SIG_SETMASK, &set, std::ptr::null_mut());
+    }
     // SAFETY: the only RealSystem instance in this process.
     let system = unsafe { RealSystem::new() };
     system.sigaction(RealSystem::SIGPIPE, Disposition::Default).ok();
